@@ -368,6 +368,9 @@ def run(tier):
     rep.rule("C02.pos", "a position parameter p used as `X.data()+p` / `X.c_str()+p` / `X.size()-p` is dominated by check_index[_strict](p, X.size()) for the same object X, "
                         "or by a branch condition entailing p <= X.size()")
     rep.rule("C02.pub", "every length published with set_size is exactly the result of a capacity check, the size of a string of the same capacity, or 0; adjust_size only shrinks")
+    rep.rule("C02.extent", "every character write (traits assign/copy/move, std::copy/copy_backward/fill, element stores) has a destination range [start, end) with "
+                           "0 <= start and end <= N provable by linear arithmetic from the capacity/position checks, branch conditions and min() clamps established on its path "
+                           "(size() <= N on entry; iterator ranges valid)")
     rep.rule("C02.len", "no offset is computed from a derived length (size()/end()/...) after a possibly growing publication of the same body: on the strlen layout that length is "
                         "stale and the write lands outside the intended range (before the buffer when count > old size)")
     rep.rule("C02.exc", "check_size: length_error iff size > N; check_add = check_size(a+b); check_index: out_of_range iff pos >= size; check_index_strict(p,s) = "
@@ -378,6 +381,7 @@ def run(tier):
     strs = fs.gather(d, insts)
     if set(strs) != {i[0] for i in insts}:
         raise cj.AnalysisBroken("instantiations found: %s, expected %s" % (sorted(strs), sorted(i[0] for i in insts)))
+    caps = {i[0]: i[2] for i in insts}
     for tag in sorted(strs):
         S = strs[tag]
         rep.unit("%s: %d member instantiations" % (tag, len(S.fns)))
@@ -387,4 +391,265 @@ def run(tier):
         rule_exc(rep, S, d)
         from .c01 import rule_len
         rule_len(rep, S, "C02.len")
+        rule_extent(rep, S, caps[tag])
     return rep
+
+
+# ---------------------------------------------------------------------------------------------------------------------
+# C02.extent - every character write lies inside the object's own buffer
+def rule_extent(rep, S, cap):
+    """For every character write of every member (throwing policy): destination range [start, end) as linear forms over the entry
+    size, the capacity, the parameters and the checked values; obligation 0 <= start and end <= N from the facts the path
+    established (policy checks, position checks, branch conditions, min() clamps, size() <= N)."""
+    R = "C02.extent"
+    d = S.d
+    import itertools
+    for fn in S.fns:
+        if fn.get("isImplicit") or fn.get("explicitlyDefaulted") or re.search(r"\)\s*const", ir.qtype(fn)):
+            continue
+        lab = "%s::%s" % (S.tag, S.label(fn))
+        bl = fs.buffer_locals(fn)
+        params = ir.params(fn)
+        uint_params = {p.get("name") for p in params if ir.qtype(p) in ("unsigned long", "unsigned long long", "unsigned int")}
+        it_params = [p.get("name") for p in params if re.search(r"const_iterator|::iterator", ir.wtype(p))]
+        self_params = {p.get("name") for p in params if "xbasic_fixed_string" in ir.qtype(p)}
+        try:
+            paths = flow.function_paths(fn, with_ctor_inits=False)
+        except cj.AnalysisBroken:
+            continue
+        if not any(fs.write_event(st[1], fn, bl) for path in paths for st in path if st[0] == "ev"):
+            continue
+        results = {}
+        for path in paths:
+            # each std::min on the path is split into its two cases
+            mins = [st[1] for st in path if st[0] == "ev" and st[1].get("kind") == "CallExpr" and (ir.strip(ir.ekids(st[1])[0]).get("referencedDecl") or {}).get("name") == "min"]
+            for choice in itertools.product((0, 1), repeat=min(len(mins), 4)):
+                pick = {id(m): c for m, c in zip(mins, choice)}
+                env = {}
+                facts = [Lin({"N": 1, "S": -1})]                       # size() <= N on entry
+                nonneg = {"S", "N"} | {"p:" + x for x in uint_params}
+                for x in it_params:
+                    nonneg.add("it:" + x)
+                if len(it_params) >= 2:
+                    facts.append(Lin({"it:" + it_params[1]: 1, "it:" + it_params[0]: -1}))     # [first, last) is a valid range (caller contract)
+                fresh = [0]
+
+                def sym(prefix):
+                    fresh[0] += 1
+                    name = "%s#%d" % (prefix, fresh[0])
+                    nonneg.add(name)
+                    return name
+
+                def val(t):
+                    """integer term -> Lin or None (adds facts for checks and clamps)"""
+                    if t[0] == "cast":
+                        return val(t[3])
+                    if t[0] == "lit":
+                        try:
+                            v = int(str(t[1]))
+                            return Lin({"": v}) if v else Lin()
+                        except ValueError:
+                            return None
+                    if t[0] == "ref":
+                        if t[1] in env:
+                            return env[t[1]]
+                        if t[1] in uint_params:
+                            return Lin({"p:" + t[1]: 1})
+                        return None
+                    if t[0] == "call":
+                        c = t[1]
+                        if c[0] == "mem" and c[2] in ("size", "length") and len(t) == 2:
+                            if c[1] == ("this",) or c[1] == ("mem", ("this",), "m_storage"):
+                                return Lin({"S": 1})
+                            key = "S:" + ir.show(c[1])
+                            nonneg.add(key)
+                            if c[1][0] == "ref" and c[1][1] in self_params:
+                                facts.append(Lin({"N": 1, key: -1}))
+                            return Lin({key: 1})
+                        if c == ("ref", "check_size") and len(t) == 3:
+                            a = val(t[2])
+                            if a is not None:
+                                facts.append(Lin({"N": 1}) - a)
+                            return a
+                        if c == ("ref", "check_add") and len(t) == 4:
+                            a, b = val(t[2]), val(t[3])
+                            if a is not None and b is not None:
+                                facts.append(Lin({"N": 1}) - a - b)
+                                return a + b
+                            return None
+                        if c == ("ref", "distance") or c == ("ref", "length"):
+                            key = "len:" + ir.show(t)[:40]
+                            nonneg.add(key)
+                            return Lin({key: 1})
+                    if t[0] == "bin" and t[1] in ("+", "-"):
+                        # pointer difference pos - cbegin()
+                        pa, pb = off(t[2]), off(t[3])
+                        if t[1] == "-" and pa is not None and pb is not None:
+                            return pa - pb
+                        a, b = val(t[2]), val(t[3])
+                        if a is None or b is None:
+                            return None
+                        return a + b if t[1] == "+" else a - b
+                    return None
+
+                def off(t):
+                    """pointer term -> offset from data() as Lin, or None if it does not point into *this"""
+                    if t[0] == "cast":
+                        return off(t[3])
+                    if t[0] == "construct" and len(t) == 3:
+                        return off(t[2])
+                    if t[0] == "call" and t[1][0] == "mem" and t[1][1] == ("this",) and len(t) == 2:
+                        if t[1][2] in ("data", "c_str", "begin", "cbegin"):
+                            return Lin()
+                        if t[1][2] in ("end", "cend"):
+                            return Lin({"S": 1})
+                        return None
+                    if t[0] == "call" and t[1] == ("mem", ("mem", ("this",), "m_storage"), "buffer"):
+                        return Lin()
+                    if t[0] == "ref":
+                        if t[1] in it_params:
+                            return Lin({"it:" + t[1]: 1})
+                        if ("ptr", t[1]) in env:
+                            return env[("ptr", t[1])]
+                        return None
+                    if t[0] == "bin" and t[1] in ("+", "-"):
+                        p_ = off(t[2])
+                        if p_ is not None:
+                            x = val(t[3])
+                            if x is None:
+                                return None
+                            return p_ + x if t[1] == "+" else p_ - x
+                        if t[1] == "+":
+                            p_ = off(t[3])
+                            x = val(t[2])
+                            if p_ is not None and x is not None:
+                                return p_ + x
+                    return None
+
+                def add_cond(t, truth):
+                    if t[0] == "bin" and t[1] in linear.NEG:
+                        op = t[1] if truth else linear.NEG[t[1]]
+                        a, b = val(t[2]), val(t[3])
+                        if a is None or b is None:
+                            a, b = off(t[2]), off(t[3])
+                        if a is not None and b is not None:
+                            facts.extend(linear.atom_facts(op, a, b))
+
+                for st in path:
+                    if st[0] == "cond":
+                        add_cond(ir.sx(st[1]), st[2])
+                        continue
+                    if st[0] == "decl":
+                        v = st[1]
+                        init = ir.ekids(v)
+                        if not init:
+                            continue
+                        node = ir.strip(init[-1])
+                        t = ir.sx(init[-1])
+                        if node.get("kind") == "CallExpr" and id(node) in pick:
+                            a, b = val(t[2]), val(t[3])
+                            if a is None or b is None:
+                                a, b = off(t[2]), off(t[3])
+                                if a is not None and b is not None:
+                                    m, o = (a, b) if pick[id(node)] == 0 else (b, a)
+                                    env[("ptr", v.get("name"))] = m
+                                    facts.append(o - m)
+                                continue
+                            m, o = (a, b) if pick[id(node)] == 0 else (b, a)
+                            env[v.get("name")] = m
+                            facts.append(o - m)
+                            continue
+                        x = val(t)
+                        if x is not None and "*" not in ir.qtype(v):
+                            env[v.get("name")] = x
+                            continue
+                        p_ = off(t)
+                        if p_ is not None:
+                            env[("ptr", v.get("name"))] = p_
+                        continue
+                    if st[0] != "ev":
+                        continue
+                    n = st[1]
+                    tm = fs.this_member_call(n)
+                    t = ir.sx(n)
+                    if tm == "check_index_strict":
+                        a, b = val(t[2]), val(t[3])
+                        if a is not None and b is not None:
+                            facts.append(b - a)
+                        continue
+                    if tm == "check_index":
+                        a, b = val(t[2]), val(t[3])
+                        if a is not None and b is not None:
+                            facts.append(b - a - Lin({"": 1}))
+                        continue
+                    if fs.policy_check(n):
+                        val(t)
+                        continue
+                    w = fs.write_event(n, fn, bl)
+                    if w is None:
+                        continue
+                    kind, dst = w
+                    args = t[2:] if t[0] == "call" else ()
+                    start = end = None
+                    if kind == "store":
+                        if dst[0] == "index":
+                            b0, i0 = off(dst[1]), val(dst[2])
+                            if b0 is not None and i0 is not None:
+                                start, end = b0 + i0, b0 + i0 + Lin({"": 1})
+                        else:
+                            b0 = off(dst[2])
+                            if b0 is not None:
+                                start, end = b0, b0 + Lin({"": 1})
+                    elif kind in ("assign", "move") or (kind == "copy" and dst == args[0]):
+                        b0, ln = off(args[0]), val(args[1] if kind == "assign" else args[2])
+                        if b0 is not None and ln is not None:
+                            start, end = b0, b0 + ln
+                    elif kind in ("copy", "copy_n"):
+                        b0 = off(args[2])
+                        f0, l0 = off(args[0]), off(args[1])
+                        ln = (l0 - f0) if (f0 is not None and l0 is not None) else None
+                        if ln is None:
+                            key = "len:distance(%s, %s)" % (ir.show(args[0]), ir.show(args[1]))
+                            alt = [k for k in nonneg if k.startswith("len:") and ir.show(args[0]) in k and ir.show(args[1]) in k]
+                            key = alt[0] if alt else key
+                            nonneg.add(key)
+                            ln = Lin({key: 1})
+                        if b0 is not None:
+                            start, end = b0, b0 + ln
+                    elif kind == "copy_backward":
+                        e0 = off(args[2])
+                        f0, l0 = off(args[0]), off(args[1])
+                        if e0 is not None and f0 is not None and l0 is not None:
+                            start, end = e0 - (l0 - f0), e0
+                    elif kind in ("fill", "fill_n"):
+                        b0 = off(args[0])
+                        if kind == "fill":
+                            e0 = off(args[1])
+                            if b0 is not None and e0 is not None:
+                                start, end = b0, e0
+                        else:
+                            ln = val(args[1])
+                            if b0 is not None and ln is not None:
+                                start, end = b0, b0 + ln
+                    key = id(n)
+                    if start is None:
+                        results.setdefault(key, [n, "unknown", "destination or length of `%s` is not linear in the size, capacity and parameters" % d.text(n)[:60].replace("\n", " ")])
+                        continue
+                    ok_lo = linear.entails(facts, start, tuple(nonneg))
+                    # bulk character writes must stay below the terminator slot (index N); a single element store may be the terminator itself
+                    ok_hi = linear.entails(facts, Lin({"N": 1, "": 1 if kind == "store" else 0}) - end, tuple(nonneg))
+                    prev = results.get(key)
+                    if ok_lo and ok_hi:
+                        if prev is None:
+                            results[key] = [n, "ok", "[%s, %s) within [0, N]" % (start.show(), end.show())]
+                    else:
+                        what = "starts at data()+(%s), which is not provably >= 0" % start.show() if not ok_lo else "ends at data()+(%s), which is not provably <= N" % end.show()
+                        results[key] = [n, "bad", "the write %s from the checks on this path (%d facts): a write past the object's own N+1 characters disturbs adjacent memory" % (what, len(facts))]
+        for n, verdict, det in results.values():
+            cons = "`%s`" % d.text(n)[:70].replace("\n", " ")
+            if verdict == "ok":
+                rep.holds(R, lab, cons, where=d.where(n), detail=det)
+            elif verdict == "bad":
+                rep.violates(R, lab, cons, where=d.where(n), detail=det)
+            else:
+                rep.inconclusive(R, lab, cons, where=d.where(n), detail=det)
